@@ -1,7 +1,14 @@
 //! Checks for the actor-core properties. Usage: checks-core <PROPERTY> <quick|thorough|replay <file>>
 vsched::getrandom_shim!();
 
+mod c01;
+mod c02;
+mod c03;
+mod c04;
+mod c06;
 mod c07;
+mod common;
+mod lifecycle;
 
 fn main() {
     let args: Vec<String> = std::env::args().skip(1).collect();
@@ -11,6 +18,11 @@ fn main() {
     };
     let rest = &args[1..];
     let code = match prop.as_str() {
+        "C01" => vsched::report::run_property(rest, &c01::plan),
+        "C02" => vsched::report::run_property(rest, &c02::plan),
+        "C03" => vsched::report::run_property(rest, &c03::plan),
+        "C04" => vsched::report::run_property(rest, &c04::plan),
+        "C06" => vsched::report::run_property(rest, &c06::plan),
         "C07" => vsched::report::run_property(rest, &c07::plan),
         _ => {
             eprintln!("unknown property {prop}");
